@@ -1,2 +1,236 @@
-(* placeholder while the tie is being developed *)
-From ZI Require Import Model.DeclAlg.
+(* Property C20 — Declaration algebra: iteration, membership, + and - obey ordered-set laws.
+   Only statements here; proofs are in Proofs/DeclAlg.v, the model in Model/DeclAlg.v, the
+   vocabulary (reach, implies, extends, tree_leaves, interleave, wf) in Spec/DeclAlg.v.
+
+   [g] is a static specification graph, [ifs] its interface nodes (the other nodes are class
+   specifications), node 0 = Interface.  [wf g ifs = true] says: bases carry smaller numbers
+   than their node (creation order, hence acyclic) and every interface is a node of [g]; every
+   finite DAG has such a numbering.  A declaration is its list of bases; all operations are
+   functions, so operands cannot change (C20_operands_unchanged states it with a store). *)
+From Coq Require Import List Arith Bool.
+Import ListNotations.
+From ZI Require Import Model.Ro Model.DeclAlg Spec.DeclAlg Proofs.DeclAlg.
+
+(* "keeping first occurrences" is this recursion *)
+Theorem C20_dedupe_keeps_first : forall x l,
+  dedupe [] = [] /\ dedupe (x :: l) = x :: filter (fun y => negb (Nat.eqb y x)) (dedupe l).
+Proof. intros x l. split; [reflexivity|apply dedupe_cons]. Qed.
+Print Assumptions C20_dedupe_keeps_first.
+
+(* iteration = the left-to-right flattening of the argument tree (nested sequences and
+   Declaration arguments in place; a class specification contributes its declared, then its
+   inherited interfaces), first occurrences kept; no duplicates; interfaces only *)
+Theorem C20_iter_exact : forall g ifs args,
+  iter g ifs (mk_decl g ifs args) = dedupe (flat_map (tree_leaves g ifs) args) /\
+  NoDup (iter g ifs (mk_decl g ifs args)) /\
+  (forall i, In i (iter g ifs (mk_decl g ifs args)) -> is_iface ifs i = true).
+Proof. exact iter_exact_lemma. Qed.
+Print Assumptions C20_iter_exact.
+
+(* x in A  <->  x is one of the interfaces A iterates over *)
+Theorem C20_contains_iff_iter : forall g ifs, wf g ifs = true -> forall d x,
+  contains g ifs d x = true <-> In x (iter g ifs d).
+Proof. exact contains_iff_lemma. Qed.
+Print Assumptions C20_contains_iff_iter.
+
+(* the extends tests the algebra uses are reachability in the graph (plus: everything implies
+   Interface) *)
+Theorem C20_extends_is_reachability : forall g ifs, wf g ifs = true -> forall x y,
+  (is_or_extends g x y = true <-> (y = root \/ reach g x y)) /\
+  (extends_strict g x y = true <-> (x <> y /\ (y = root \/ reach g x y))).
+Proof.
+  intros g ifs W x y. split; [apply (is_or_extends_iff g ifs W)|apply (extends_strict_iff g ifs W)].
+Qed.
+Print Assumptions C20_extends_is_reachability.
+
+(* flattened() lists, in the resolution order Model/Ro.v computes for the declaration node
+   and without repeats, exactly the interfaces reachable from the iterated ones -- and
+   Interface itself, even when nothing is declared *)
+Theorem C20_flattened_members : forall g ifs, wf g ifs = true -> forall d,
+  flattened g ifs d =
+    filter (is_iface ifs)
+           (fresh_sro (S (fresh_id g d)) root ((fresh_id g d, d) :: g) (fresh_id g d)) /\
+  NoDup (flattened g ifs d) /\
+  (forall y, In y (flattened g ifs d) <->
+             is_iface ifs y = true /\ (y = root \/ exists i, In i (iter g ifs d) /\ reach g i y)).
+Proof.
+  intros g ifs W d. split; [reflexivity|]. split; [apply (flattened_NoDup g ifs W)|].
+  apply (flattened_members_lemma g ifs W).
+Qed.
+Print Assumptions C20_flattened_members.
+
+(* as the property words it: when some declared interface leads to Interface (always the
+   case in a hierarchy rooted at Interface), flattened() = the declared interfaces plus
+   everything they extend *)
+Theorem C20_flattened_members_nonempty : forall g ifs, wf g ifs = true -> forall d,
+  (exists i, In i (iter g ifs d) /\ reach g i root) ->
+  forall y, In y (flattened g ifs d) <->
+            is_iface ifs y = true /\ exists i, In i (iter g ifs d) /\ reach g i y.
+Proof. exact flattened_nonempty_lemma. Qed.
+Print Assumptions C20_flattened_members_nonempty.
+
+(* A - B keeps, in order, the interfaces of A that neither are nor extend one of B *)
+Theorem C20_sub_spec : forall g ifs a b,
+  iter g ifs (sub g ifs a b) =
+  filter (fun i => negb (existsb (fun j => is_or_extends g i j) (iter g ifs b))) (iter g ifs a).
+Proof. exact sub_spec_lemma. Qed.
+Print Assumptions C20_sub_spec.
+
+Theorem C20_sub_members : forall g ifs, wf g ifs = true -> forall a b x,
+  In x (iter g ifs (sub g ifs a b)) <->
+  In x (iter g ifs a) /\ ~ exists j, In j (iter g ifs b) /\ (j = root \/ reach g x j).
+Proof. exact sub_members_lemma. Qed.
+Print Assumptions C20_sub_members.
+
+(* A + B : exactly the interfaces of both, no duplicates *)
+Theorem C20_add_members : forall g ifs a b,
+  NoDup (iter g ifs (add g ifs a b)) /\
+  (forall x, In x (iter g ifs (add g ifs a b)) <-> In x (iter g ifs a) \/ In x (iter g ifs b)).
+Proof. exact add_members_lemma. Qed.
+Print Assumptions C20_add_members.
+
+(* A + B = front ++ A ++ back : A's interfaces stay together in their order; the new
+   interfaces of B are split, order kept, into front and back; EXACT placement rule as
+   implemented: a new interface goes in front iff it strictly extends an interface of A or
+   an earlier new interface of B that went to the back *)
+Theorem C20_add_spec : forall g ifs, wf g ifs = true -> forall a b,
+  let new := filter (fun i => negb (mem i (iter g ifs a))) (iter g ifs b) in
+  exists front back,
+    iter g ifs (add g ifs a b) = front ++ iter g ifs a ++ back /\
+    interleave new front back /\
+    (forall p x q, new = p ++ x :: q ->
+       (In x front <->
+        exists y, (In y (iter g ifs a) \/ (In y p /\ In y back)) /\
+                  (x <> y /\ (y = root \/ reach g x y)))).
+Proof. exact add_spec_lemma. Qed.
+Print Assumptions C20_add_spec.
+
+(* the part of the worded rule that always holds: every new interface that extends an
+   interface of A is in front, and nothing at the back extends an interface of A *)
+Theorem C20_add_extenders_of_A_in_front : forall g ifs a b front back,
+  let new := filter (fun i => negb (mem i (iter g ifs a))) (iter g ifs b) in
+  iter g ifs (add g ifs a b) = front ++ iter g ifs a ++ back ->
+  interleave new front back ->
+  (forall p x q, new = p ++ x :: q ->
+     (In x front <->
+      exists y, (In y (iter g ifs a) \/ (In y p /\ In y back)) /\
+                (x <> y /\ (y = root \/ reach g x y)))) ->
+  (forall x y, In x new -> In y (iter g ifs a) -> x <> y /\ (y = root \/ reach g x y) -> In x front) /\
+  (forall x y, In x back -> In y (iter g ifs a) -> ~ (x <> y /\ (y = root \/ reach g x y))).
+Proof. exact add_in_front_lemma. Qed.
+Print Assumptions C20_add_extenders_of_A_in_front.
+
+(* the rule as the property words it ("the new interfaces of B that extend an interface of A
+   in front, the others at the end") holds when no new interface of B extends another new
+   interface of B ... *)
+Theorem C20_add_as_worded_partial : forall g ifs, wf g ifs = true -> forall a b,
+  let new := filter (fun i => negb (mem i (iter g ifs a))) (iter g ifs b) in
+  let extA := fun x => existsb (fun y => extends_strict g x y) (iter g ifs a) in
+  (forall x y, In x new -> In y new -> ~ (x <> y /\ (y = root \/ reach g x y))) ->
+  iter g ifs (add g ifs a b) =
+  filter extA new ++ iter g ifs a ++ filter (fun x => negb (extA x)) new.
+Proof. exact add_as_worded_lemma. Qed.
+Print Assumptions C20_add_as_worded_partial.
+
+(* ... and fails without that hypothesis: with I2 <- I3 and an unrelated I1,
+   Declaration(I1) + Declaration(I2, I3) is [I3, I1, I2]: I3 is in front although it extends no
+   interface of the left operand (it extends I2, which went to the back).  This is what the
+   code does (and what keeps the resolution order consistent); the wording is imprecise. *)
+Theorem C20_add_as_worded_refuted : exists g ifs a b,
+  wf g ifs = true /\
+  let new := filter (fun i => negb (mem i (iter g ifs a))) (iter g ifs b) in
+  let extA := fun x => existsb (fun y => extends_strict g x y) (iter g ifs a) in
+  iter g ifs (add g ifs a b) <>
+  filter extA new ++ iter g ifs a ++ filter (fun x => negb (extA x)) new.
+Proof.
+  exists [(0, []); (1, [0]); (2, [0]); (3, [2])], [0; 1; 2; 3], [1], [2; 3].
+  split; [reflexivity|]. vm_compute. discriminate.
+Qed.
+Print Assumptions C20_add_as_worded_refuted.
+
+(* x + A for an interface x is A.__radd__(x) = A + x : A first *)
+Theorem C20_radd_is_add : forall g ifs x a,
+  is_iface ifs x = true ->
+  radd g ifs x a = add g ifs a [x] /\
+  iter g ifs (radd g ifs x a) =
+    if mem x (iter g ifs a) then iter g ifs a
+    else if existsb (fun y => extends_strict g x y) (iter g ifs a) then x :: iter g ifs a
+         else iter g ifs a ++ [x].
+Proof. intros g ifs x a H. split; [reflexivity|apply (radd_lemma g ifs x a H)]. Qed.
+Print Assumptions C20_radd_is_add.
+
+(* no operation modifies its operands: in the store-passing version of the model every
+   history of constructions, additions, subtractions and queries leaves every existing
+   declaration as it was (by construction: the model's operations are functions; the driver
+   checks the same on the code with snapshots) *)
+Theorem C20_operands_unchanged : forall g ifs ops s i, i < length s ->
+  nth_error (fold_left (dstep g ifs) ops s) i = nth_error s i.
+Proof. intros g ifs ops. exact (operands_unchanged_lemma g ifs ops). Qed.
+Print Assumptions C20_operands_unchanged.
+
+(* alsoProvides: previous direct interfaces (unless the class already implies them) stay,
+   first and in order; the new arguments follow *)
+Theorem C20_alsoProvides_appends : forall g ifs c p args,
+  exists bs, also_provides g ifs c p args = Some bs /\
+    iter g ifs (directly_provided_by (Some bs)) =
+    iter g ifs (strip_cls g c (iter g ifs (directly_provided_by p) ++ mk_decl g ifs args)) /\
+    (forall x, In x (iter g ifs (directly_provided_by p)) -> is_or_extends g c x = false ->
+               In x (iter g ifs (directly_provided_by (Some bs)))).
+Proof.
+  intros g ifs c p args. pose proof (also_provides_lemma g ifs c p args) as H.
+  destruct (also_provides g ifs c p args) as [bs|]; [|destruct H]. exists bs. split; [reflexivity|exact H].
+Qed.
+Print Assumptions C20_alsoProvides_appends.
+
+(* noLongerProvides(ob, I) removes I AND every directly provided interface extending I;
+   it raises ValueError (after the removal) exactly when the class still implies I *)
+Theorem C20_noLongerProvides_removes_subinterfaces : forall g ifs, wf g ifs = true -> forall c p i,
+  is_iface ifs i = true ->
+  (forall x, In x (iter g ifs (directly_provided_by (fst (no_longer_provides g ifs c p i)))) <->
+             In x (iter g ifs (directly_provided_by p)) /\
+             ~ (i = root \/ reach g x i) /\ ~ (x = root \/ reach g c x)) /\
+  (snd (no_longer_provides g ifs c p i) = true <-> (i = root \/ reach g c i)).
+Proof. exact no_longer_provides_members_lemma. Qed.
+Print Assumptions C20_noLongerProvides_removes_subinterfaces.
+
+Theorem C20_noLongerProvides_exact : forall g ifs c p i, is_iface ifs i = true ->
+  iter g ifs (directly_provided_by (fst (no_longer_provides g ifs c p i))) =
+  filter (fun x => negb (is_or_extends g c x))
+         (filter (fun x => negb (is_or_extends g x i)) (iter g ifs (directly_provided_by p))).
+Proof. exact no_longer_provides_exact_lemma. Qed.
+Print Assumptions C20_noLongerProvides_exact.
+
+(* ---- non-vacuity: a concrete well-formed world with non-trivial answers.
+   0 = Interface; I1 <- I2 <- I3 (a chain); I4 unrelated; 5 = implementedBy(object);
+   6 = implementedBy(K) where K declares I3. *)
+Definition ex_g : graph := [(0, []); (1, [0]); (2, [1]); (3, [2]); (4, [0]); (5, []); (6, [3; 5])].
+Definition ex_ifs : list node := [0; 1; 2; 3; 4].
+
+Example C20_witness :
+  wf ex_g ex_ifs = true /\
+  (* nested tuples, a class specification leaf and a Declaration argument, flattened in place *)
+  iter ex_g ex_ifs (mk_decl ex_g ex_ifs [Leaf 2; Seq [Leaf 4; Seq [Leaf 2; Leaf 6]]; OfDecl [1; 4]]) = [2; 4; 3; 1] /\
+  map (contains ex_g ex_ifs [2; 4]) [0; 1; 2; 3; 4; 5; 6] = [false; false; true; false; true; false; false] /\
+  flattened ex_g ex_ifs [3; 4] = [3; 2; 1; 4; 0] /\
+  flattened ex_g ex_ifs [] = [0] /\
+  (exists i, In i (iter ex_g ex_ifs [3; 4]) /\ reach ex_g i root) /\
+  (* - removes the interface and its extenders *)
+  iter ex_g ex_ifs (sub ex_g ex_ifs [1; 3; 4; 2] [2]) = [1; 4] /\
+  (* + : the extender of A goes in front, the unrelated one to the end *)
+  iter ex_g ex_ifs (add ex_g ex_ifs [2] [4; 3; 2]) = [3; 2; 4] /\
+  iter ex_g ex_ifs (add ex_g ex_ifs [4] [1; 2]) = [2; 4; 1] /\
+  iter ex_g ex_ifs (radd ex_g ex_ifs 1 [4]) = [4; 1] /\
+  (* instance of the plain class (5): provide I1, I3, I4 then remove I2: I3 goes too *)
+  (let p := also_provides ex_g ex_ifs 5 None [Leaf 1; Leaf 3; Leaf 4] in
+   iter ex_g ex_ifs (directly_provided_by p) = [1; 3; 4] /\
+   iter ex_g ex_ifs (directly_provided_by (fst (no_longer_provides ex_g ex_ifs 5 p 2))) = [1; 4] /\
+   snd (no_longer_provides ex_g ex_ifs 5 p 2) = false /\
+   snd (no_longer_provides ex_g ex_ifs 5 p 0) = true) /\
+  (* the store only grows *)
+  nth_error (fold_left (dstep ex_g ex_ifs) [OMk [Leaf 3]; OAdd 0 1; OSub 0 1; OQuery 0] [[1; 4]]) 0 = Some [1; 4].
+Proof.
+  repeat split; try (vm_compute; reflexivity).
+  exists 3. split; [vm_compute; tauto|].
+  apply reach_step with 2; [left; reflexivity|]. apply reach_step with 1; [left; reflexivity|].
+  apply reach_step with 0; [left; reflexivity|]. apply reach_refl.
+Qed.
